@@ -199,6 +199,21 @@ func (g *commonGen) template(w *World, name string, b int) []Step {
 		out = append(out, Step{Kind: "drop_session", B: ob}, g.fill(w, "probe", ob), Step{Kind: "drop_session", B: b}, g.fill(w, "probe", b),
 			Step{Kind: "login", B: ob, A: a, Sec: &SecretRef{Kind: "oldpassword", A: a, Idx: -1}}, Step{Kind: "login", B: ob, A: a, Sec: pw(a)})
 		return out
+	case "rotated_then_reset":
+		// the cookie is used (and exchanged) moments before the password
+		// changes; a copy of the used-up cookie turns up right afterwards
+		ob := (b + 1) % len(w.Browsers)
+		out := []Step{{Kind: "login", B: b, A: a, Sec: pw(a), RM: true}, {Kind: "drop_session", B: b}, g.fill(w, "probe", b)}
+		if g.r.Bool() && c.hasModule("recover") {
+			out = append(out, Step{Kind: "recover_start", B: b, A: a}, Step{Kind: "recover_end", B: b, A: a, Sec: &SecretRef{Kind: "recover", A: a, Idx: -1}, Sec2: g.newPasswordFor(a)})
+		} else {
+			out = append(out, Step{Kind: "op_update_password", B: b, A: a, Sec: g.newPasswordFor(a)})
+		}
+		pr := g.fill(w, "probe", ob)
+		pr.Gap = g.r.Dur(0, 20*time.Second)
+		out = append(out, Step{Kind: "stale_cookie", B: ob, Str: map[string]string{"from": fmt.Sprint(b), "idx": "-2"}}, Step{Kind: "drop_session", B: ob}, pr,
+			Step{Kind: "login", B: ob, A: a, Sec: pw(a)})
+		return out
 	case "op_reset":
 		return []Step{{Kind: "op_update_password", B: b, A: a, Sec: g.newPasswordFor(a)}, {Kind: "login", B: b, A: a, Sec: &SecretRef{Kind: "oldpassword", A: a, Idx: -1}},
 			{Kind: "login", B: b, A: a, Sec: pw(a)}}
